@@ -24,6 +24,7 @@ PROPS = {
             {"driver": "load", "stage": "ctx", "flavour": "asan"},
             {"driver": "load", "stage": "gram", "flavour": "asan"},
             {"driver": "load", "stage": "deep", "flavour": "asan", "shards": 8},
+            {"driver": "fault", "stage": "load", "flavour": "asan"},
         ],
     },
     "C05": {
